@@ -1,6 +1,8 @@
 //! C10 — untrusted input never crashes, hangs or exhausts memory: the bounded NEIGHBOURHOOD statement (DESIGN.md C10 / section 5).
 //!
-//! S-inp. Seeds: every kit asset unsigned and signed, a detached manifest store (.c2pa), a builder archive, and the
+//! S-inp. Seeds: every kit asset unsigned and signed, a detached manifest store (.c2pa), a builder archive, seeds with legal-but-rare encodings (a store whose superbox
+//! holds unknown child boxes in the 32-bit, 64-bit largesize and size-0 forms, detached and embedded in a JPEG; MP4 with top-level largesize /
+//! size-0 boxes), and the
 //! repository's regression inputs (riff_bomb_1000.wav, nested_moov_1000.mp4, id3v23_compression_underflow.mp3,
 //! tiff_poc.tiff, bad_path_archive.zip). Alphabet per seed (one deviation from the seed per input):
 //!   * byte edits: every byte position (quick: the first 600) x {00,01,7F,80,FF,b+1,b-1}; thorough: x all 255 other values on the
@@ -8,7 +10,9 @@
 //!   * truncations: every shorter length (quick: every length <= 600, every 8th beyond, and the last 16);
 //!   * length-like fields: every 4/8-byte big- or little-endian window whose value is a plausible in-file length, every 2-byte
 //!     big-endian window introduced by a JPEG marker, a 2-byte CBOR head (59/79/99/B9) or DER 0x82 (thorough: every plausible
-//!     2-byte window of either endianness in seeds <= 16 KiB), each set to {0,1,2,7,8,9,16,v-1,v+1,2^(8w-1)-1,2^(8w-1),2^(8w)-1} and for wide fields 2^31-1, 2^32-1, 2^32, 2^63.
+//!     2-byte window of either endianness in seeds <= 16 KiB), each set to {0,1,2,7,8,9,16,v-1,v+1,2^(8w-1)-1,2^(8w-1),2^(8w)-1} and for wide fields 2^31-1, 2^32-1, 2^32, 2^63;
+//!     plus 'negative' lengths: 8-byte fields (seeds <= 16 KiB) get 2^64-d for d in 1..=64 and for every distance (<= 256) back to an earlier
+//!     length-field start, 4-byte fields (seeds <= 6 KiB) get 2^32-d for d in 1..=16.
 //! Every input is given to Reader::with_stream, Builder::add_ingredient_from_stream and jumbf_io::load_jumbf_from_memory under the
 //! seed's own format hint and 3 wrong hints (rotating through all other formats with the mutation index), and to Builder::with_archive.
 //!
@@ -19,6 +23,8 @@
 //! progress file written before each call.
 //!
 //! Mutants caught (tools/mutant_run.sh I <diff> C10 quick):
+//!   /tmp/seed-C10/OUT/patch.diff (independently seeded: unknown JUMBF child box skipped with a signed seek) -> key `hang how=hang entry=reader
+//!                                 format=application/c2pa|image/jpeg mutation=field` via the rare-encoding seeds + negative-length values
 //!   /verif/mutants/C10-jumd-min-size-unchecked.diff (the JUMD_MIN_SIZE guard of BoxReader::read_desc_box removed: subtraction overflow panic)
 
 use c2pa::{Builder, Reader};
@@ -177,8 +183,35 @@ fn mutations(d: &[u8], thorough: bool, full_bytes: bool) -> Vec<Mutation> {
             v.push(Mutation::Trunc { len: len as u32 });
         }
     }
-    for (off, w, be, cur) in fields(d, thorough) {
-        for val in boundary_values(w, cur) {
+    let fs = fields(d, thorough);
+    // starts of length-like fields = candidate structure starts (a box/chunk size field sits at the start of its structure)
+    let starts: Vec<u32> = {
+        let mut s: Vec<u32> = fs.iter().map(|f| f.0).collect();
+        s.dedup();
+        s
+    };
+    for &(off, w, be, cur) in &fs {
+        let mut vals = boundary_values(w, cur);
+        // "negative" lengths: a signed conversion or wrapping addition turns them into a backward step
+        if w == 8 && l <= 16 * 1024 {
+            let mut ds: Vec<u64> = (1..=64u64).collect();
+            // distances from this field, and from the start of a structure whose 64-bit size would sit here (field - 8), back to
+            // every earlier structure start within 256 bytes
+            for &s0 in starts.iter().filter(|s0| **s0 < off && off - **s0 <= 264) {
+                ds.push((off - s0) as u64);
+                if off >= 8 && s0 < off - 8 {
+                    ds.push((off - 8 - s0) as u64);
+                }
+            }
+            vals.extend(ds.into_iter().filter(|d| *d >= 1 && *d <= 256).map(|d| u64::MAX - d + 1));
+        }
+        if w == 4 && l <= 6 * 1024 {
+            vals.extend((1..=16u64).map(|d| (1u64 << 32) - d));
+        }
+        vals.sort();
+        vals.dedup();
+        vals.retain(|x| *x != cur);
+        for val in vals {
             v.push(Mutation::Field { off, width: w, be, val });
         }
     }
@@ -524,6 +557,28 @@ fn build_seeds() -> Vec<Seed> {
         b.to_archive(&mut out).unwrap_or_else(|e| kit::ev::machinery(format!("C10 seed archive: {e:?}")));
         v.push(Seed { name: "builder-archive".into(), mime: "application/c2pa".into(), data: out.into_inner() });
     }
+    // legal-but-rare encodings, so that their dangerous neighbours are ONE deviation away
+    {
+        let store = v.iter().find(|s| s.name == "sidecar.c2pa").map(|s| s.data.clone()).unwrap_or_default();
+        let odd = store_with_unknown_boxes(&store).unwrap_or_else(|e| kit::ev::machinery(format!("C10 seed unknown boxes: {e}")));
+        // embedded twin: the same store inside the tiny JPEG
+        let jpeg = assets::by_name("jpeg");
+        let emb = c2pa::jumbf_io::save_jumbf_to_memory(jpeg.mime, &jpeg.data, &odd).unwrap_or_else(|e| kit::ev::machinery(format!("C10 seed embedded unknown boxes: {e:?}")));
+        v.push(Seed { name: "sidecar+unknown-boxes.c2pa".into(), mime: "application/c2pa".into(), data: odd });
+        v.push(Seed { name: "jpeg+store-with-unknown-boxes".into(), mime: jpeg.mime.to_string(), data: emb });
+        // BMFF: top-level boxes in the 64-bit largesize form and a final box with size 0 (to end of file)
+        let mp4 = assets::by_name("mp4");
+        let mut m = mp4.data.clone();
+        m.extend_from_slice(&[0, 0, 0, 8, b'f', b'r', b'e', b'e']);
+        m.extend_from_slice(&[0, 0, 0, 1, b'f', b'r', b'e', b'e', 0, 0, 0, 0, 0, 0, 0, 20, 1, 2, 3, 4]);
+        m.extend_from_slice(&[0, 0, 0, 1, b's', b'k', b'i', b'p', 0, 0, 0, 0, 0, 0, 0, 16]);
+        let signed = sdk::sign_simple(signer.as_ref(), mp4.mime, &m, &[]);
+        let mut m0 = m.clone();
+        m0.extend_from_slice(&[0, 0, 0, 0, b'f', b'r', b'e', b'e', 9, 9, 9, 9]);
+        v.push(Seed { name: "mp4-largesize".into(), mime: mp4.mime.to_string(), data: m });
+        v.push(Seed { name: "mp4-largesize+signed".into(), mime: mp4.mime.to_string(), data: signed });
+        v.push(Seed { name: "mp4-largesize-size0".into(), mime: mp4.mime.to_string(), data: m0 });
+    }
     for (file, mime) in [
         ("riff_bomb_1000.wav", "audio/wav"),
         ("nested_moov_1000.mp4", "video/mp4"),
@@ -538,6 +593,30 @@ fn build_seeds() -> Vec<Seed> {
         v.push(Seed { name: file.to_string(), mime: mime.to_string(), data });
     }
     v
+}
+
+/// A manifest store whose top-level superbox additionally contains, right after its description box, an unknown box in the 32-bit
+/// size form (8 bytes, no payload), an unknown box in the 64-bit form (size == 1, correct largesize) and, as last child, an unknown box
+/// with size == 0 (extends to the end of the container).
+fn store_with_unknown_boxes(store: &[u8]) -> Result<Vec<u8>, String> {
+    if store.len() < 16 || &store[4..8] != b"jumb" || &store[12..16] != b"jumd" {
+        return Err("not a JUMBF store".into());
+    }
+    let total = u32::from_be_bytes(store[0..4].try_into().unwrap()) as usize;
+    let jumd = u32::from_be_bytes(store[8..12].try_into().unwrap()) as usize;
+    if total != store.len() || 8 + jumd > store.len() {
+        return Err("unexpected store framing".into());
+    }
+    let mut extra_front = vec![0, 0, 0, 8, b'u', b'n', b'k', b'1'];
+    extra_front.extend_from_slice(&[0, 0, 0, 1, b'u', b'n', b'k', b'2', 0, 0, 0, 0, 0, 0, 0, 20, 0xA1, 0xA2, 0xA3, 0xA4]);
+    let extra_back = [0, 0, 0, 0, b'u', b'n', b'k', b'3', 0xB1, 0xB2, 0xB3, 0xB4];
+    let mut out = ((total + extra_front.len() + extra_back.len()) as u32).to_be_bytes().to_vec();
+    out.extend_from_slice(b"jumb");
+    out.extend_from_slice(&store[8..8 + jumd]);
+    out.extend_from_slice(&extra_front);
+    out.extend_from_slice(&store[8 + jumd..]);
+    out.extend_from_slice(&extra_back);
+    Ok(out)
 }
 
 /// Drive a corpus through the worker pool and record everything in `run`.
@@ -613,9 +692,9 @@ pub fn run(run: &Run, replay: Option<&Value>) {
         worker(&spec);
     }
     run.rule(
-        "seeds = 19 kit assets unsigned + signed, one detached store, one builder archive, 5 repository regression inputs; per seed: identity, byte edits (quick: first 600 positions x \
+        "seeds = 19 kit assets unsigned + signed, one detached store, one builder archive, 5 rare-encoding seeds (unknown JUMBF child boxes in 32-bit/largesize/size-0 form, detached and in a JPEG; MP4 with largesize/size-0 boxes), 5 repository regression inputs; per seed: identity, byte edits (quick: first 600 positions x \
          {00,01,7F,80,FF,+1,-1}; thorough: every position, and x255 values on the 4 smallest seeds), truncations (quick: lengths <=600, every 8th, last 16; thorough: every length), \
-         length-like fields x boundary values (see module doc). Each input goes to Reader::with_stream, Builder::add_ingredient_from_stream, jumbf_io::load_jumbf_from_memory under the seed's \
+         length-like fields x boundary values incl. negative lengths 2^64-d / 2^32-d (see module doc). Each input goes to Reader::with_stream, Builder::add_ingredient_from_stream, jumbf_io::load_jumbf_from_memory under the seed's \
          own hint and 3 wrong hints rotating over the 14 other formats (quick: add_ingredient_from_stream own + 1 wrong hint), and to Builder::with_archive (11 quick / 13 thorough calls per input). Quick: in seeds > 16 KiB only length-like fields starting in the first 600 bytes. evaluations = calls. non-trivial = distinct mutated inputs that \
          Reader::with_stream (a manifest store was found and parsed) still returned Ok for under some hint.",
     );
